@@ -24,6 +24,12 @@ func init() {
 			"the correctness of the admissibility tests as values.",
 		Run: runC03,
 		Mutants: []Mutant{
+			{Name: "tenant-set-dropped-on-pool-counter", File: "internal/allocator/allocator.go",
+				Old: "\t\tif a.poolIPsInUse[al.pool][ip.String()] == 0 {\n\t\t\tdelete(a.poolIPsInUse[al.pool], ip.String())\n",
+				New: "\t\tif a.poolIPsInUse[al.pool][ip.String()] == 0 {\n\t\t\tdelete(a.poolIPsInUse[al.pool], ip.String())\n\t\t\tdelete(a.servicesOnIP, ip.String())\n", Expect: "delete-servicesOnIP"},
+			{Name: "unlabelled-service-never-compatible", File: "internal/allocator/allocator.go",
+				Old: "\tif p.ServiceAllocations != nil && len(p.ServiceAllocations.ServiceSelectors) > 0 {\n\t\tsvcLabels := labels.Set(svc.Labels)\n",
+				New: "\tif p.ServiceAllocations != nil && len(p.ServiceAllocations.ServiceSelectors) > 0 {\n\t\tif len(svc.Labels) == 0 {\n\t\t\treturn false\n\t\t}\n\t\tsvcLabels := labels.Set(svc.Labels)\n", Expect: "return-false:justified"},
 			{Name: "sharing-verdict-of-last-address-only", File: "internal/allocator/allocator.go",
 				Old: "\tfor _, ip := range ips {\n\t\t// Does the IP already have allocs? If so, needs to be the same\n\t\t// sharing key, and have non-overlapping ports. If not, the\n\t\t// proposed IP needs to be allowed by configuration.\n\t\tif err := a.checkSharing(svcKey, ip.String(), ports, sk); err != nil {\n\t\t\treturn err\n\t\t}\n\t}",
 				New: "\tvar sharingErr error\n\tfor _, ip := range ips {\n\t\tsharingErr = a.checkSharing(svcKey, ip.String(), ports, sk)\n\t}\n\tif sharingErr != nil {\n\t\treturn sharingErr\n\t}", Expect: "GUARD-SHARE"},
@@ -124,6 +130,9 @@ func runC03(p *chk.Prog, r *chk.Report) {
 	// the pool update re-homes allocations in two steps (Unassign + assign): it must exclude the service handler
 	// (LOCK-ENTRY, shared with C20), or a newcomer takes the address in between and the holder is evicted later
 	c20Entry(p, r)
+	// re-adoption asks isPoolCompatibleWithService: it refuses only for a namespace or selector reason (POOL-COMPAT,
+	// shared with C02)
+	c02PoolCompat(p, r)
 }
 
 func c03Converge(p *chk.Prog, r *chk.Report) {
